@@ -14,6 +14,8 @@ use crate::ops::{self, Op, Pool, Res};
 use crate::prng::{Hasher, Rng};
 
 pub const MAIN: usize = usize::MAX;
+/// nobody holds the baton: every live thread is blocked; the supervisor decides what that means
+const NOBODY: usize = usize::MAX - 1;
 
 #[derive(Clone, Debug, PartialEq)]
 pub enum Strategy {
@@ -185,6 +187,7 @@ pub struct Probes {
     pub emit_fault_while_other_in_call: u64,
     pub switches_between_emits_of_one_call: u64,
     pub calls_overlapping: u64,
+    pub lock_blocked_threads_passed_over: u64,
 }
 
 pub struct RunOutput {
@@ -228,6 +231,44 @@ struct St {
     probes: Probes,
     cells: Vec<(String, &'static str, String)>,
     kinds: Vec<Vec<String>>,
+    /// kernel thread ids of the client threads (for /proc state inspection)
+    ktids: Vec<i32>,
+    /// the thread was given the baton but went to sleep in the kernel on something a parked thread
+    /// holds (a std lock taken by the code under test and kept across a scheduling point)
+    blocked: Vec<bool>,
+    blocked_events: u64,
+    /// set when no thread can run any more although some are alive
+    deadlock: Option<String>,
+}
+
+/// Is this kernel thread asleep inside a futex wait? (/proc/self/task/<tid>/stat says S and
+/// /proc/self/task/<tid>/syscall names futex.) That is what a thread blocked on a std Mutex, RwLock,
+/// Condvar or Once looks like; a thread in nanosleep or blocking I/O does not qualify.
+fn thread_sleeping(ktid: i32) -> bool {
+    if ktid <= 0 {
+        return false;
+    }
+    let asleep = match std::fs::read(format!("/proc/self/task/{}/stat", ktid)) {
+        Ok(b) => match b.iter().rposition(|c| *c == b')') {
+            Some(pos) => b.get(pos + 2) == Some(&b'S'),
+            None => false,
+        },
+        Err(_) => false,
+    };
+    if !asleep {
+        return false;
+    }
+    match std::fs::read_to_string(format!("/proc/self/task/{}/syscall", ktid)) {
+        Ok(t) => {
+            let nr = t.split_whitespace().next().unwrap_or("");
+            nr == "202" || nr == "449" // futex, futex_waitv
+        }
+        Err(_) => true,
+    }
+}
+
+fn runnable_mask(st: &St) -> Vec<bool> {
+    (0..st.alive.len()).map(|t| st.alive[t] && !st.blocked[t]).collect()
 }
 
 pub struct Shared {
@@ -249,9 +290,55 @@ impl Shared {
         st.kinds[t].get(st.cur_op[t]).cloned().unwrap_or_else(|| "-".into())
     }
 
+    /// Before a decision is taken, every thread that was blocked and has since been released by
+    /// the kernel must have either reached its next scheduling point or gone back to sleep, so that
+    /// the set of runnable threads at this decision does not depend on timing.
+    fn settle<'a>(&'a self, mut st: std::sync::MutexGuard<'a, St>, me: usize) -> std::sync::MutexGuard<'a, St> {
+        loop {
+            let pending: Vec<usize> = (0..st.alive.len()).filter(|t| *t != me && st.alive[*t] && st.blocked[*t]).collect();
+            if pending.is_empty() {
+                return st;
+            }
+            let ktids: Vec<i32> = pending.iter().map(|t| st.ktids[*t]).collect();
+            drop(st);
+            // a released thread is runnable from the moment the releasing unlock returned; give it
+            // the CPU until it parks at its next point (it then clears its blocked flag) or sleeps again
+            let mut all_asleep = true;
+            for k in &ktids {
+                if !thread_sleeping(*k) {
+                    all_asleep = false;
+                }
+            }
+            if all_asleep {
+                // double-check after a short pause: asleep twice in a row = still blocked
+                std::thread::yield_now();
+                let again = ktids.iter().all(|k| thread_sleeping(*k));
+                st = self.m.lock().unwrap();
+                if again {
+                    let still: Vec<usize> = (0..st.alive.len()).filter(|t| *t != me && st.alive[*t] && st.blocked[*t]).collect();
+                    if still == pending {
+                        return st;
+                    }
+                }
+                continue;
+            }
+            std::thread::yield_now();
+            st = self.m.lock().unwrap();
+        }
+    }
+
     fn point(&self, tid: usize, site: &'static str) {
         let mut st = self.m.lock().unwrap();
-        debug_assert_eq!(st.current, tid, "a thread ran without the baton");
+        if st.current != tid {
+            // This thread had been given the baton, blocked in the kernel on a lock held by a parked
+            // thread, was passed over, and has now been released: it parks here like everybody else.
+            debug_assert!(st.blocked[tid], "a thread ran without the baton");
+            // (not hashed: the moment of arrival relative to the baton holder's events is timing)
+            st.blocked[tid] = false;
+            while st.current != tid {
+                st = self.cvs[tid].wait(st).unwrap();
+            }
+        }
         st.steps += 1;
         if st.in_call[tid] {
             st.call_points[tid] += 1;
@@ -269,9 +356,12 @@ impl Shared {
         if deep > st.probes.deep_overlap {
             st.probes.deep_overlap = deep;
         }
+        if st.blocked.iter().any(|b| *b) {
+            st = self.settle(st, tid);
+        }
         let decision = st.choices.len() as u64;
-        let alive = st.alive.clone();
-        let next = st.chooser.choose(tid, &alive, decision);
+        let mask = runnable_mask(&st);
+        let next = st.chooser.choose(tid, &mask, decision);
         st.choices.push(next as u8);
         st.il.u64(tid as u64);
         st.il.str(site);
@@ -300,6 +390,7 @@ impl Shared {
 
     fn wait_for_baton(&self, tid: usize) {
         let mut st = self.m.lock().unwrap();
+        st.ktids[tid] = unsafe { libc::syscall(libc::SYS_gettid) } as i32;
         while st.current != tid {
             st = self.cvs[tid].wait(st).unwrap();
         }
@@ -307,13 +398,28 @@ impl Shared {
 
     fn finish(&self, tid: usize) {
         let mut st = self.m.lock().unwrap();
+        if st.current != tid {
+            // released straggler that had nothing left but to finish
+            st.blocked[tid] = false;
+            while st.current != tid {
+                st = self.cvs[tid].wait(st).unwrap();
+            }
+        }
         st.alive[tid] = false;
         st.ev.u64(tid as u64);
         st.ev.str("finish");
+        if st.blocked.iter().any(|b| *b) {
+            st = self.settle(st, tid);
+        }
         if st.alive.iter().any(|a| *a) {
+            let mask = runnable_mask(&st);
+            if !mask.iter().any(|r| *r) {
+                // every other live thread is blocked: let the supervisor watch whether that is final
+                st.current = NOBODY;
+                return;
+            }
             let decision = st.choices.len() as u64;
-            let alive = st.alive.clone();
-            let next = st.chooser.choose(MAIN, &alive, decision);
+            let next = st.chooser.choose(MAIN, &mask, decision);
             st.choices.push(next as u8);
             st.il.u64(tid as u64);
             st.il.str("finish");
@@ -403,6 +509,10 @@ pub fn execute(spec: &RunSpec, chooser: Chooser, pool: Arc<dyn Pool + Send + Syn
         probes: Probes::default(),
         cells: Vec::new(),
         kinds: spec.threads.iter().map(|ops| ops.iter().map(|o| o.kind.clone()).collect()).collect(),
+        ktids: vec![0; n],
+        blocked: vec![false; n],
+        blocked_events: 0,
+        deadlock: None,
     };
     let mut fds = [0i32; 2];
     assert!(unsafe { libc::pipe2(fds.as_mut_ptr(), libc::O_CLOEXEC) } == 0);
@@ -494,24 +604,117 @@ pub fn execute(spec: &RunSpec, chooser: Chooser, pool: Arc<dyn Pool + Send + Syn
             shared.cvs[next].notify_one();
             let mut last_steps = st.steps;
             drop(st);
+            // Supervisor. poll() with a relative, kernel-measured timeout: no clock is read.
+            let tick_ms = 15;
+            let mut idle_ticks: u64 = 0;
+            let mut asleep_ticks: u64 = 0;
             loop {
                 let mut pfd = libc::pollfd { fd: shared.done_r, events: libc::POLLIN, revents: 0 };
-                let r = unsafe { libc::poll(&mut pfd, 1, spec.watchdog.as_millis() as i32) };
+                let r = unsafe { libc::poll(&mut pfd, 1, tick_ms) };
                 if r > 0 {
                     break;
                 }
-                if r == 0 {
-                    let st = shared.m.lock().unwrap();
-                    if st.steps == last_steps {
-                        stalled = Some(format!(
-                            "no scheduling point reached for {:?} (thread {} holds the baton at step {}): an uninstrumented blocking primitive is held across a scheduling point, or a call does not terminate",
-                            spec.watchdog, st.current, st.steps
-                        ));
+                if r < 0 {
+                    continue;
+                }
+                let mut st = shared.m.lock().unwrap();
+                if st.steps != last_steps {
+                    last_steps = st.steps;
+                    idle_ticks = 0;
+                    asleep_ticks = 0;
+                    continue;
+                }
+                idle_ticks += 1;
+                let cur = st.current;
+                if cur == NOBODY {
+                    let mask = runnable_mask(&st);
+                    if mask.iter().any(|r| *r) {
+                        // a blocked thread was released by a timeout of its own and is parked again
+                        let decision = st.choices.len() as u64;
+                        let next = st.chooser.choose(MAIN, &mask, decision);
+                        st.choices.push(next as u8);
+                        st.il.str("resume");
+                        st.il.u64(next as u64);
+                        st.current = next;
+                        shared.cvs[next].notify_one();
+                        idle_ticks = 0;
+                        asleep_ticks = 0;
+                        continue;
+                    }
+                    let all_in_futex = (0..st.alive.len()).filter(|t| st.alive[*t]).all(|t| thread_sleeping(st.ktids[t]));
+                    if all_in_futex {
+                        asleep_ticks += 1;
+                    } else {
+                        asleep_ticks = 0;
+                    }
+                    if asleep_ticks * tick_ms as u64 >= 1500 {
+                        let who: Vec<usize> = (0..st.alive.len()).filter(|t| st.alive[*t]).collect();
+                        st.deadlock = Some(format!("live threads {:?} all sleep in futex waits and nobody is left to release them", who));
                         break;
                     }
+                    if idle_ticks * tick_ms as u64 >= spec.watchdog.as_millis() as u64 {
+                        stalled = Some("no runnable thread and no progress, but the blocked threads are not in futex waits".to_string());
+                        break;
+                    }
+                    continue;
+                }
+                // look at the kernel state of the baton holder without holding the state lock (the
+                // holder may itself be queueing for that lock, which also looks like a futex wait)
+                let ktid = if cur != MAIN { st.ktids[cur] } else { 0 };
+                drop(st);
+                let asleep = cur != MAIN && thread_sleeping(ktid);
+                st = shared.m.lock().unwrap();
+                if st.steps != last_steps || st.current != cur {
                     last_steps = st.steps;
+                    idle_ticks = 0;
+                    asleep_ticks = 0;
+                    continue;
+                }
+                if asleep {
+                    asleep_ticks += 1;
+                } else {
+                    asleep_ticks = 0;
+                }
+                if cur != MAIN && asleep_ticks >= 2 {
+                    // The baton holder sleeps in a futex wait and has passed no scheduling point for two
+                    // ticks: it waits for something a parked thread holds. Pass it over.
+                    st.blocked[cur] = true;
+                    st.blocked_events += 1;
+                    st.ev.u64(cur as u64);
+                    st.ev.str("blocked");
+                    let mask = runnable_mask(&st);
+                    if !mask.iter().any(|r| *r) {
+                        st.current = NOBODY;
+                        idle_ticks = 0;
+                        asleep_ticks = 0;
+                        continue;
+                    }
+                    let decision = st.choices.len() as u64;
+                    let next = st.chooser.choose(MAIN, &mask, decision);
+                    st.choices.push(next as u8);
+                    st.il.u64(cur as u64);
+                    st.il.str("blocked");
+                    st.il.u64(next as u64);
+                    st.current = next;
+                    shared.cvs[next].notify_one();
+                    idle_ticks = 0;
+                    asleep_ticks = 0;
+                    continue;
+                }
+                if idle_ticks * tick_ms as u64 >= spec.watchdog.as_millis() as u64 {
+                    stalled = Some(format!(
+                        "no scheduling point reached for {:?} (thread {} holds the baton at step {} and is not asleep): a call spins or does not terminate",
+                        spec.watchdog, st.current, st.steps
+                    ));
+                    break;
                 }
             }
+        }
+    }
+    {
+        let st = shared.m.lock().unwrap();
+        if let Some(d) = &st.deadlock {
+            stalled = Some(format!("DEADLOCK: {}", d));
         }
     }
     if let Some(msg) = stalled {
@@ -527,7 +730,7 @@ pub fn execute(spec: &RunSpec, chooser: Chooser, pool: Arc<dyn Pool + Send + Syn
             event_hash: st.ev.0,
             interleaving_hash: st.il.0,
             capped: st.capped,
-            probes: st.probes.clone(),
+            probes: { let mut p = st.probes.clone(); p.lock_blocked_threads_passed_over = st.blocked_events; p },
             cells: st.cells.clone(),
             stalled: Some(msg),
         };
@@ -550,7 +753,7 @@ pub fn execute(spec: &RunSpec, chooser: Chooser, pool: Arc<dyn Pool + Send + Syn
         event_hash: st.ev.0,
         interleaving_hash: st.il.0,
         capped: st.capped,
-        probes: st.probes.clone(),
+        probes: { let mut p = st.probes.clone(); p.lock_blocked_threads_passed_over = st.blocked_events; p },
         cells: st.cells.clone(),
         stalled: None,
     }
